@@ -784,7 +784,9 @@ def plan(tier, seed, rng, broken=False):
             scenes = (False, True) if big else ((i + seed) % 2 == 1,)
             for long in scenes:
                 if big:
-                    out.append((long, t, respell + list(CORE) + rng.sample(rest, 12 if is_rollback(t) else 40)))
+                    # every respelling in both scenes; the common pool in one of them (alternating)
+                    pool = (list(CORE) + rng.sample(rest, 12 if is_rollback(t) else 40)) if long == ((i + seed) % 2 == 1) else []
+                    out.append((long, t, respell + pool))
                 else:
                     others = [r for r in respell if r not in RE_CORE]
                     out.append((long, t, RE_CORE + rng.sample(others, 12) + rng.sample(CORE, 2)))
